@@ -1546,6 +1546,11 @@ impl HttpsListener {
         if let Some(ref hdr) = patch.sozu_id_header {
             validate_sozu_id_header(hdr)?;
         }
+        // `enabled` is mandatory on a present HSTS block (see below): refuse the
+        // patch here, before any of its fields is applied.
+        if patch.hsts.is_some_and(|hsts| hsts.enabled.is_none()) {
+            return Err(ListenerError::HstsEnabledRequired);
+        }
 
         // HTTP answers: merge legacy `http_answers` and the new `answers`
         // map on top of a copy of the existing config and compile the
@@ -1729,9 +1734,6 @@ impl HttpsListener {
         // `http.hsts.frontend_refreshed` counter (sum of refreshed
         // frontends from this patch).
         if let Some(new_hsts) = patch.hsts {
-            if new_hsts.enabled.is_none() {
-                return Err(ListenerError::HstsEnabledRequired);
-            }
             self.config.hsts = Some(new_hsts);
             let refreshed = self
                 .fronts
